@@ -810,7 +810,11 @@ package commitlog
 //@   assumes forall i int, j int :: 0 <= i && i < j && j < len(l.segments) ==> nextOf(l.segments[i]) <= nextOf(l.segments[j])
 //@   call Delete#2 requires [only-segments-after-the-offset] arg0 == l.segments[i] && i > idx
 //@   call Delete#1 requires [whole-segment-at-the-offset] arg0 == seg && seg.BaseOffset == offset && idx > 0
-//@   loop 1 invariant idx + 1 <= i && i <= len(l.segments) && deleted == i - (idx + 1) && 0 <= idx && idx < len(l.segments) && seg == l.segments[idx] && seg != nil
+// (a truncation removes a SUFFIX at every instant, not only when it is over: of the segments after the one holding the
+//  offset the newest goes first, so that a truncation cut short - by an error or by the death of the process - leaves
+//  a contiguous log and not a hole followed by messages that were to be removed)
+//@   call Delete#2 requires [C05:the-later-segments-go-newest-first] i == len(l.segments) - 1 - deleted
+//@   loop 1 invariant idx <= i && i <= len(l.segments) - 1 && deleted == len(l.segments) - 1 - i && 0 <= idx && idx < len(l.segments) && seg == l.segments[idx] && seg != nil
 //@   loop 1 invariant l.segments == old(l.segments) && (forall k int :: 0 <= k && k < len(l.segments) ==> l.segments[k] == old(l.segments[k]))
 //@   loop 2 invariant 0 <= i && i <= idx && fresh(segments) && l.segments == old(l.segments) && (forall k int :: 0 <= k && k < len(l.segments) ==> l.segments[k] == old(l.segments[k]))
 //@   loop 2 invariant forall k int :: 0 <= k && k < i ==> segments[k] == old(l.segments[k])
